@@ -49,6 +49,26 @@ CLAIMED = {
             'Trusted: CPython ast, numpy/torch view-vs-copy table, numba in-place semantics, the A.3 query/in-place '
             'lists, class inference. User-held views (state.stabilizers) are documented aliasing and out of scope.',
             'DESIGN.md 3 (R4), 4 (C17)'),
+    'C05': ('row-class abstraction of kernel guards + finite model of the replacement/relocation index logic over the '
+            'documented tableau layout; product-site closure; phase-kind (bit vs sign) dataflow; constructor/copy binding; '
+            'in/out discipline of rank-carrying calls',
+            'Structural necessary conditions of the invariant at every tableau writer: in all 7 projection kernels the '
+            'pivot / rank-drop / phase-update / accumulation guards are decided to accept exactly the row classes the '
+            'layout forces (for all N<=4, r), and the loop-free replacement block is interpreted on row labels for every '
+            'N<=3, r and pivot (partner row, copy order, r-=1, three-way relocation, sign at the new stabilizer); products '
+            'stay in {0,1}/{0..3}; no bit is stored as a sign; (gs,ps,r) reach the same-named fields. Inductiveness of '
+            'the invariant over histories (mutual commutation after updates) is NOT decided.',
+            'Trusted: CPython ast, layout docstring, C01-C03, naming scheme, effects.py.',
+            'DESIGN.md 3 (R9, R7, R3, R2, R4, R5), 4 (C05)'),
+    'C06': ('row-class guards and replacement-block model of stabilizer_measure, pairing of coin and log2prob, '
+            'outcome-decode truth table, in/out discipline at measure()',
+            'Decides the wiring the Born rule / projection postulate depend on: which rows are pivots, when the rank drops, '
+            'that the random branch flips a fair 2*bit coin and subtracts exactly 1 from log2prob in the same block, that '
+            'the deterministic branch writes nothing, that outcomes are decoded as (state sign == observable sign), that '
+            'measure() stores gs, ps and r back. The numerical log2prob and exactness of the post-measurement state are '
+            'values of a loop nest and are NOT decided.',
+            'Trusted: CPython ast, layout docstring, C01, naming scheme.',
+            'DESIGN.md 3 (R9, R7, R11, R15, R3, R5), 4 (C06)'),
     'C11': ('constant-table extraction by guard evaluation + literal folding, checked against first-principles '
             'Pauli algebra (symplectic validity, textbook action, distinctness, group closure)',
             'Complete static decision of the finite gate tables: all 31 literal tables (5 named, 24 indexed, 2 CNOT '
